@@ -85,7 +85,7 @@ func specStrictDER(sig []byte) bool {
 // never panics on any input of the stated lengths.
 //verif:opts reach=accept,reject
 func VH_parse_der_signature() {
-	lens := []int{0, 7, 8, 9, 10, 12, 70}
+	lens := []int{0, 7, 8, 9, 10, 12, 70, 71}
 	if vTier() == 1 {
 		lens = []int{0, 1, 7, 8, 9, 10, 11, 12, 16, 40, 70, 71, 72, 73}
 	}
@@ -97,7 +97,7 @@ func VH_parse_der_signature() {
 		// R takes 32 or 33 bytes (where the range checks against the group order live)
 		vAssume(int(sig[1]) == n-2)
 		if vTier() == 0 {
-			vAssume(sig[3] == 32 || sig[3] == 33 || sig[3] == 1)
+			vAssume(sig[3] == 32 || sig[3] == 33 || sig[3] == 1 || sig[3] == 31)
 		}
 	}
 	_, err := ParseDERSignature(sig)
